@@ -9,6 +9,12 @@
 //   several scripts separated by '|' = several requests, one after the other, through ONE middleware
 //   instance (the observation fields of the requests are then separated by " ; ")
 //   calls beyond the script return (nil, err) with identity -1 ("e").
+//   optional fifth field = request/transport profile, '+'-separated (the property quantifies over none of it, so the
+//   expected observation is the same for every profile):
+//     GET|HEAD|POST|PUT|PATCH|DELETE|OPTIONS  request method (default GET)      idem   Idempotency-Key header set
+//     body      the request carries a body with GetBody                        ctxv   context with a value and a cancel func
+//     lat<us>   every call of the transport takes <us> microseconds             outer0 RetryMiddleware(0, d) stacked outside
+//     inner0    RetryMiddleware(0, d) stacked inside (between the instance under test and the transport)
 // stdout: <id> <calls> <resp identity or -> <err identity or -> <sleeps> <first_gap_ok>
 //   identity of a response/error = index of the call that produced it.
 //   sleeps = number of calls i>0 that started at least delay after call i-1 returned
@@ -57,10 +63,14 @@ type scripted struct {
 	errs   map[error]int
 	starts []time.Time
 	ends   []time.Time
+	lat    time.Duration
 }
 
 func (s *scripted) RoundTrip(req *http.Request) (*http.Response, error) {
 	s.starts = append(s.starts, time.Now())
+	if s.lat > 0 {
+		time.Sleep(s.lat)
+	}
 	i := s.calls
 	s.calls++
 	var o outcome
@@ -140,22 +150,83 @@ func runCase(line string) string {
 		sc = f[3]
 	}
 	scripts := strings.Split(sc, "|")
+	prof := profile{method: "GET"}
+	if len(f) > 4 {
+		prof = parseProfile(f[4])
+	}
 	cur := &scripted{}
 	// one middleware instance for all requests of the case; the transport behind it serves the current script
-	rt := middleware.RetryMiddleware(n, d)(middleware.RoundTripper(func(r *http.Request) (*http.Response, error) {
+	var base http.RoundTripper = middleware.RoundTripper(func(r *http.Request) (*http.Response, error) {
 		return cur.RoundTrip(r)
-	}))
+	})
+	if prof.inner0 {
+		base = middleware.RetryMiddleware(0, d)(base)
+	}
+	rt := middleware.RetryMiddleware(n, d)(base)
+	if prof.outer0 {
+		rt = middleware.RetryMiddleware(0, d)(rt)
+	}
 	var parts []string
 	for _, one := range scripts {
-		s := &scripted{script: parseScript(one), resps: map[*http.Response]int{}, errs: map[error]int{}}
+		s := &scripted{script: parseScript(one), resps: map[*http.Response]int{}, errs: map[error]int{}, lat: prof.lat}
 		cur = s
-		parts = append(parts, observe(rt, s, d))
+		parts = append(parts, observe(rt, s, d, prof))
 	}
 	return id + " " + strings.Join(parts, " ; ")
 }
 
-func observe(rt http.RoundTripper, s *scripted, d time.Duration) string {
-	req, _ := http.NewRequest("GET", "http://example.invalid/x", nil)
+type profile struct {
+	method         string
+	idem, body     bool
+	ctxv           bool
+	lat            time.Duration
+	outer0, inner0 bool
+}
+
+type ctxKey struct{}
+
+func parseProfile(s string) profile {
+	p := profile{method: "GET"}
+	for _, t := range strings.Split(s, "+") {
+		switch {
+		case t == "" || t == "-":
+		case t == "idem":
+			p.idem = true
+		case t == "body":
+			p.body = true
+		case t == "ctxv":
+			p.ctxv = true
+		case t == "outer0":
+			p.outer0 = true
+		case t == "inner0":
+			p.inner0 = true
+		case strings.HasPrefix(t, "lat"):
+			us, err := strconv.Atoi(t[3:])
+			if err != nil {
+				panic(err)
+			}
+			p.lat = time.Duration(us) * time.Microsecond
+		default:
+			p.method = t
+		}
+	}
+	return p
+}
+
+func observe(rt http.RoundTripper, s *scripted, d time.Duration, prof profile) string {
+	var rd io.Reader
+	if prof.body {
+		rd = strings.NewReader(`{"k":1}`)
+	}
+	req, _ := http.NewRequest(prof.method, "http://example.invalid/x", rd)
+	if prof.idem {
+		req.Header.Set("Idempotency-Key", "k-1")
+	}
+	if prof.ctxv {
+		ctx, cancel := context.WithCancel(context.WithValue(context.Background(), ctxKey{}, "v"))
+		defer cancel()
+		req = req.WithContext(ctx)
+	}
 	start := time.Now()
 	resp, err := rt.RoundTrip(req)
 	rs, es := "-", "-"
